@@ -2,6 +2,7 @@ package schema
 
 import (
 	"fmt"
+	"google.golang.org/protobuf/encoding/protowire"
 	"strings"
 
 	"google.golang.org/protobuf/proto"
@@ -377,6 +378,32 @@ func graphUnits() []Unit {
 			&descriptorpb.MethodDescriptorProto{Name: proto.String("Stream"), InputType: proto.String(rq.Full()), OutputType: proto.String(rs.Full()), ServerStreaming: proto.Bool(true), ClientStreaming: proto.Bool(true)})
 		f.P.Service = append(f.P.Service, svc)
 		out = append(out, Unit{ID: id, Label: "service with unary and streaming methods", Files: []*descriptorpb.FileDescriptorProto{f.P}, Expect: "ok"})
+	}
+	// extension fields (custom options): declared at file level for two extendees in non-contiguous blocks, and inside a
+	// message (which proto3 allows: the message itself has no extension ranges); used in the file's own options
+	{
+		id := "g_extensions"
+		f := NewFile("c12/"+id+".proto", "c12."+id, GenRoot+"c12/"+id, "google/protobuf/descriptor.proto")
+		ext := func(name string, num int32, ty descriptorpb.FieldDescriptorProto_Type, typeName, extendee string) *descriptorpb.FieldDescriptorProto {
+			e := &descriptorpb.FieldDescriptorProto{Name: proto.String(name), Number: proto.Int32(num), Type: ty.Enum(), Extendee: proto.String(extendee),
+				Label: descriptorpb.FieldDescriptorProto_LABEL_OPTIONAL.Enum(), JsonName: proto.String(JSONName(name))}
+			if typeName != "" {
+				e.TypeName = proto.String(typeName)
+			}
+			return e
+		}
+		holder := f.Msg("Holder")
+		holder.Field("v", 1, S(Int32))
+		holder.Rep("vs", 2, S(Sint64))
+		holder.P.Extension = append(holder.P.Extension, ext("inner", 52001, descriptorpb.FieldDescriptorProto_TYPE_BYTES, "", ".google.protobuf.FieldOptions"))
+		f.P.Extension = append(f.P.Extension,
+			ext("contact", 52002, descriptorpb.FieldDescriptorProto_TYPE_STRING, "", ".google.protobuf.MessageOptions"),
+			ext("unit", 52003, descriptorpb.FieldDescriptorProto_TYPE_INT32, "", ".google.protobuf.FieldOptions"),
+			ext("stage", 52004, descriptorpb.FieldDescriptorProto_TYPE_STRING, "", ".google.protobuf.MessageOptions"),
+			ext("holder", 52005, descriptorpb.FieldDescriptorProto_TYPE_MESSAGE, holder.Full(), ".google.protobuf.MessageOptions"))
+		holder.P.Options = &descriptorpb.MessageOptions{}
+		holder.P.Options.ProtoReflect().SetUnknown(protowire.AppendString(protowire.AppendTag(protowire.AppendString(protowire.AppendTag(nil, 52002, protowire.BytesType), "a@example.org"), 52004, protowire.BytesType), "beta"))
+		out = append(out, Unit{ID: id, Label: "extension fields at file level (interleaved extendees) and inside a message", Files: []*descriptorpb.FileDescriptorProto{f.P}, Expect: "ok"})
 	}
 	// comments of every flavour on every kind of declaration, deprecated options, custom json names
 	{
